@@ -78,6 +78,7 @@ SHARD = 60
 RUN_TIMEOUT = 120
 F_DUP = "C27-duplicate-selection-reported-ok"
 F_LOST = "C27-repair-dcop-no-valid-assignment"
+F_CRASH = "C27-agent-thread-dies-unknown-computation"
 
 
 # ------------------------------------------------------------------ generation
@@ -680,7 +681,12 @@ def _problems(case, o):
     leaving = set(case["leaving"])
     before = o["before"]
     if o.get("crashes"):
-        return [(None, "thread died / critical error during the run: %r" % (o["crashes"][:3],))]
+        # an UnknownComputation escaping a message handler of a surviving agent ends that agent's
+        # thread (seen ~1 run in 150 under heavy load): recorded finding; anything else is new
+        only_unknown = all(len(x) == 3 and x[0] != "orchestrator" and x[0] not in leaving
+                           and x[1] == "UnknownComputation" for x in o["crashes"])
+        return [(F_CRASH if only_unknown else None,
+                 "thread died / critical error during the run: %r" % (o["crashes"][:3],))]
     if o.get("watcher_incomplete") or before is None:
         return [(None, "the run ended before the state after the repair could be read")]
     if before is not None and _unreplicated(before, case["leaving"]):
